@@ -74,7 +74,9 @@ type ForgeOpts struct {
 	Mixed     *gen.MixedOpts
 	Ties      bool
 	PerHeight bool
-	Dir       string // where chain.gob / meta.json / ref db go
+	// PerHeightOnly restricts the per-height dumps to these heights (nil = every height).
+	PerHeightOnly map[uint32]bool
+	Dir           string // where chain.gob / meta.json / ref db go
 	KeepDB    bool
 	// Checkpoints: copy the database file after these heights (quiescent point) into Dir/ckpt-<h>.db
 	Checkpoints map[uint32]bool
@@ -113,7 +115,7 @@ func ForgeChain(o ForgeOpts) (*forge.Chain, *ChainMeta, *harness.Dump, error) {
 		meta.Stats["opr_entries"] += int64(len(b.OPR))
 		meta.Stats["spr_entries"] += int64(len(b.SPR))
 		meta.Stats["factoid_txs"] += int64(len(b.FTxs))
-		if o.PerHeight {
+		if o.PerHeight && (o.PerHeightOnly == nil || o.PerHeightOnly[h]) {
 			d, err := harness.TakeDump(n.RO, harness.DumpOptions{DropBackfill: true})
 			if err != nil {
 				return err
